@@ -122,9 +122,13 @@ structure PrivD (Kn : String → Prop) (s0 s : CState) (x : Nat) : Prop where
   unread : Unread s0 s x
   nm : x ∉ s.qc.marked
 
+abbrev NoN : Nat → Prop := fun _ => False
+
 /-- what a piece of the compiler leaves alone between `s` and `s'`: `D` the qubits (in use in `s`) it may
-write, `R` the in-use ancillas it may leave unmarked, `C` the qubits it may read, mark or cache -/
-structure Fr (Kn : String → Prop) (σ0 : FState) (s0 s s' : CState) (D R C : Nat → Prop) : Prop where
+write, `R` the in-use ancillas it may leave unmarked, `C` the qubits it may read, mark or cache, `E` the new
+qubits it may allocate that are not ancillas -/
+structure Fr (Kn : String → Prop) (σ0 : FState) (s0 s s' : CState) (D R C : Nat → Prop) (E : Nat → Prop := NoN) :
+    Prop where
   nq : s.qc.numQubits ≤ s'.qc.numQubits
   avail : ∀ q, Avail s' q → Avail s q
   mkeep : ∀ m ∈ s.qc.marked, m ∈ s'.qc.marked
@@ -136,23 +140,23 @@ structure Fr (Kn : String → Prop) (σ0 : FState) (s0 s s' : CState) (D R C : N
   priv : ∀ x, PrivD Kn s0 s x → ¬ C x → PrivD Kn s0 s' x
   pend : ∀ a ∈ s'.qc.anc, a ∉ s'.qc.free → a ∉ s'.qc.kept → a ∉ s'.qc.marked →
     (a ∈ s.qc.anc ∧ a ∉ s.qc.free ∧ a ∉ s.qc.marked) ∨ R a
-
-abbrev NoN : Nat → Prop := fun _ => False
+  alloc : ∀ q, s.qc.numQubits ≤ q → q < s'.qc.numQubits → q ∈ s'.qc.anc ∨ E q
 
 variable {Kn : String → Prop} {ρ : Env} {σ0 : FState} {s0 : CState}
 
-theorem Fr.refl {D R C : Nat → Prop} (s : CState) : Fr Kn σ0 s0 s s D R C :=
+theorem Fr.refl {D R C E : Nat → Prop} (s : CState) : Fr Kn σ0 s0 s s D R C E :=
   ⟨Nat.le_refl _, fun _ h => h, fun _ h => h, fun _ h => h, fun _ h => Or.inl h, fun _ h => h, rfl, fun _ _ _ => rfl, fun _ h _ => h,
-    fun _ h1 h2 _ h4 => Or.inl ⟨h1, h2, h4⟩⟩
+    fun _ h1 h2 _ h4 => Or.inl ⟨h1, h2, h4⟩, fun q h1 h2 => absurd h2 (by omega)⟩
 
-theorem Fr.trans {D1 D2 R1 R2 C1 C2 : Nat → Prop} {s s1 s2 : CState}
-    (h1 : Fr Kn σ0 s0 s s1 D1 R1 C1) (h2 : Fr Kn σ0 s0 s1 s2 D2 R2 C2) :
-    Fr Kn σ0 s0 s s2 (fun q => D1 q ∨ D2 q) (fun q => R1 q ∨ R2 q) (fun q => C1 q ∨ C2 q) := by
+theorem Fr.trans {D1 D2 R1 R2 C1 C2 E1 E2 : Nat → Prop} {s s1 s2 : CState}
+    (h1 : Fr Kn σ0 s0 s s1 D1 R1 C1 E1) (h2 : Fr Kn σ0 s0 s1 s2 D2 R2 C2 E2) :
+    Fr Kn σ0 s0 s s2 (fun q => D1 q ∨ D2 q) (fun q => R1 q ∨ R2 q) (fun q => C1 q ∨ C2 q)
+      (fun q => E1 q ∨ E2 q) := by
   refine ⟨Nat.le_trans h1.nq h2.nq, fun q h => h1.avail q (h2.avail q h), fun m h => h2.mkeep m (h1.mkeep m h),
     fun a h => h2.akeep a (h1.akeep a h),
     fun a h => (h2.anew a h).elim (h1.anew a) (fun h' => Or.inr (h1.avail a h')),
     fun q h => h2.tkeep q (h1.tkeep q h), h2.kkeep.trans h1.kkeep, ?_,
-    fun x h hc => h2.priv x (h1.priv x h (fun hh => hc (Or.inl hh))) (fun hh => hc (Or.inr hh)), ?_⟩
+    fun x h hc => h2.priv x (h1.priv x h (fun hh => hc (Or.inl hh))) (fun hh => hc (Or.inr hh)), ?_, ?_⟩
   · intro q hq hd
     rw [h2.val q (fun h => hq (h1.avail q h)) (fun h => hd (Or.inr h)), h1.val q hq (fun h => hd (Or.inl h))]
   · intro a ha hf hk hm
@@ -161,16 +165,26 @@ theorem Fr.trans {D1 D2 R1 R2 C1 C2 : Nat → Prop} {s s1 s2 : CState}
       · exact Or.inl h
       · exact Or.inr (Or.inl h)
     · exact Or.inr (Or.inr h)
+  · intro q hq1 hq2
+    by_cases hq : q < s1.qc.numQubits
+    · rcases h1.alloc q hq1 hq with h | h
+      · exact Or.inl (h2.akeep q h)
+      · exact Or.inr (Or.inl h)
+    · rcases h2.alloc q (by omega) hq2 with h | h
+      · exact Or.inl h
+      · exact Or.inr (Or.inr h)
 
 /-- weaken the sets; `D` and `C` only have to be covered on the qubits they are asked about -/
-theorem Fr.mono {D D' R R' C C' : Nat → Prop} {s s' : CState} (h : Fr Kn σ0 s0 s s' D R C)
+theorem Fr.mono {D D' R R' C C' E E' : Nat → Prop} {s s' : CState} (h : Fr Kn σ0 s0 s s' D R C E)
     (hd : ∀ q, ¬ Avail s q → D q → D' q)
     (hr : ∀ q, R q → q ∈ s'.qc.anc → q ∉ s'.qc.kept → q ∉ s'.qc.marked → R' q)
-    (hc : ∀ x, PrivD Kn s0 s x → C x → C' x) :
-    Fr Kn σ0 s0 s s' D' R' C' :=
+    (hc : ∀ x, PrivD Kn s0 s x → C x → C' x)
+    (he : ∀ q, E q → E' q := by intro q h; simp_all) :
+    Fr Kn σ0 s0 s s' D' R' C' E' :=
   ⟨h.nq, h.avail, h.mkeep, h.akeep, h.anew, h.tkeep, h.kkeep, fun q hq hn => h.val q hq (fun hh => hn (hd q hq hh)),
     fun x hx hn => h.priv x hx (fun hh => hn (hc x hx hh)),
-    fun a h1 h2 h3 h4 => (h.pend a h1 h2 h3 h4).imp id (fun hh => hr a hh h1 h3 h4)⟩
+    fun a h1 h2 h3 h4 => (h.pend a h1 h2 h3 h4).imp id (fun hh => hr a hh h1 h3 h4),
+    fun q h1 h2 => (h.alloc q h1 h2).imp id (he q)⟩
 
 /-! ### primitives -/
 
@@ -304,7 +318,7 @@ theorem gate_fr {cls : GClass} {cs : List Nat} {t : Nat} {s s' : CState} {g : AG
   have hav : ∀ q, Avail s' q ↔ Avail s q := avail_congr ha.free ha.nq
   refine ⟨Nat.le_of_eq ha.nq.symm, fun q h => (hav q).mp h, fun m h => by rw [ha.marked]; exact h,
     fun a h => by rw [ha.anc]; exact h, fun a h => Or.inl (by rw [← ha.anc]; exact h), ?_, ha.kept,
-    fun q _ hq => ha.cur_ne hc σ0 q hq, ?_, ?_⟩
+    fun q _ hq => ha.cur_ne hc σ0 q hq, ?_, ?_, ?_⟩
   · rintro q ⟨g', hg1, hg2⟩
     exact ⟨g', by rw [hL]; exact List.mem_append_left _ hg1, hg2⟩
   · intro x hx hcs
@@ -318,6 +332,7 @@ theorem gate_fr {cls : GClass} {cs : List Nat} {t : Nat} {s s' : CState} {g : AG
       rw [this, hgw]; simpa using hcs
   · intro a h1 h2 _ h4
     exact Or.inl ⟨by rw [← ha.anc]; exact h1, by rw [← ha.free]; exact h2, by rw [← ha.marked]; exact h4⟩
+  · intro q h1 h2; rw [ha.nq] at h2; exact absurd h2 (by omega)
 
 /-- a step that changes neither the gate lists nor the values and leaves the quantum-circuit bookkeeping
 alone except (possibly) the marked set, which may only grow by in-use unkept ancillas that are targets -/
@@ -377,7 +392,8 @@ theorem Fr.of_quiet {C : Nat → Prop} {s s' : CState}
   have hL : Lof s0 s' = Lof s0 s := Lof_congr hgt
   refine ⟨Nat.le_of_eq hn.symm, fun q h => (hav q).mp h, hmk, fun a h => by rw [ha]; exact h,
     fun a h => Or.inl (by rw [← ha]; exact h),
-    fun q h => by unfold TgtL; rw [hL]; exact h, hk, fun q _ _ => by rw [cur_congr hgt], ?_, ?_⟩
+    fun q h => by unfold TgtL; rw [hL]; exact h, hk, fun q _ _ => by rw [cur_congr hgt], ?_, ?_,
+    fun q h1 h2 => absurd h2 (by rw [hn]; omega)⟩
   · intro x hx hcx
     refine ⟨fun h => hx.nav ((hav x).mp h), hx.av0, by rw [hq]; exact hx.nn, ?_, by unfold Unread; rw [hL]; exact hx.unread,
       fun h => (hm x h).elim hx.nm hcx⟩
@@ -521,9 +537,10 @@ theorem getFreeAncilla_gi {a : Nat} {s s' : CState}
       (∀ x ∈ s'.qc.anc, x ∈ s.qc.anc ∨ x = a) → (∀ x ∈ s.qc.anc, x ∈ s'.qc.anc) → a ∈ s'.qc.anc →
       (∀ x ∈ s'.qc.free, x ∈ s.qc.free ∧ x ≠ a) → (∀ x ∈ s.qc.free, x ≠ a → x ∈ s'.qc.free) → s'.qc.free.Nodup →
       (∀ n q, Kn n → dictGet? s'.qc.qmap n = some q → dictGet? s.qc.qmap n = some q) →
+      (∀ q, s.qc.numQubits ≤ q → q < s'.qc.numQubits → q = a) →
       GI Kn ρ σ0 s0 s' ∧ Fr Kn σ0 s0 s s' NoN (· = a) NoN ∧ cur σ0 s' = cur σ0 s ∧ Avail s a ∧
       PrivD Kn s0 s' a ∧ a ∈ s'.qc.anc ∧ a ∉ s'.qc.kept ∧ s'.qc.marked = s.qc.marked ∧ s'.expq = s.expq := by
-    intro hava hnava hav hnq hancs hanck hanca hfree hfreek hfnd hqm
+    intro hava hnava hav hnq hancs hanck hanca hfree hfreek hfnd hqm hnew
     have hakept : a ∉ s.qc.kept := by
       intro hk
       rcases hava with h' | h'
@@ -535,7 +552,8 @@ theorem getFreeAncilla_gi {a : Nat} {s s' : CState}
         Nat.le_trans gi.nq hnq, fun q h' => gi.avail q (hav q h'), hkp.trans gi.kept,
         fun q h' => by rw [hcur]; exact gi.zero q (hav q h'), ?_, gi.knOK, ?_, hfnd, ?_, ?_, ?_, ?_⟩,
       ⟨hnq, hav, fun m hm => by rw [hmk]; exact hm, hanck,
-        fun x hx => (hancs x hx).imp id (fun (e : x = a) => e ▸ hava), htk, hkp, fun q _ _ => by rw [hcur], ?_, ?_⟩,
+        fun x hx => (hancs x hx).imp id (fun (e : x = a) => e ▸ hava), htk, hkp, fun q _ _ => by rw [hcur], ?_, ?_,
+        fun q h1 h2 => Or.inl (hnew q h1 h2 ▸ hanca)⟩,
       hcur, hava, ⟨hnava, gi.avail a hava, ?_, by rw [hex]; exact hnc, ?_, ?_⟩, hanca, by rw [hkp]; exact hakept,
       hmk, hex⟩
     · intro g hg; rw [hL] at hg
@@ -617,6 +635,7 @@ theorem getFreeAncilla_gi {a : Nat} {s s' : CState}
       have hna := gi.knOK n hk
       rw [hqm, dictGet?_dictSet_ne (by rintro rfl; rw [ancLike_anc] at hna; cases hna)] at hq
       exact hq
+    · intro q h1 h2; omega
   · apply common
     · exact Or.inl haf
     · unfold Avail; rw [hf', hn]
@@ -634,5 +653,6 @@ theorem getFreeAncilla_gi {a : Nat} {s s' : CState}
     · intro x hx hxa; rw [hf']; exact (List.mem_erase_of_ne hxa).mpr hx
     · rw [hf']; exact gi.freeNd.erase a
     · intro n q _ hq; rw [hqm] at hq; exact hq
+    · intro q h1 h2; omega
 
 end QV.Compiler
